@@ -342,6 +342,17 @@ func buildIllegal(kind string, sub int, legal bool) []*sg.Mod {
 	}
 	dev := &sg.Mod{Name: "mdev", Prefix: "mdev", Imports: []sg.Import{{Mod: "m0", Prefix: "m0"}}}
 	mods := []*sg.Mod{m}
+	// place puts the node that makes the reference below the subject container, or (one time in three) into a grouping of
+	// m0 that only another module uses: the reference is still one within m0
+	place := func(n *sg.Node) {
+		if v(3) != 2 {
+			top.Kids = append(top.Kids, n)
+			return
+		}
+		m.Groupings = append(m.Groupings, &sg.Grouping{Name: "gremote", Kids: []*sg.Node{n}})
+		mods = append(mods, &sg.Mod{Name: "mu", Prefix: "mu", Imports: []sg.Import{{Mod: "m0", Prefix: "m0"}},
+			Nodes: []*sg.Node{{Kind: "container", Name: "mu-top", Kids: []*sg.Node{{Kind: "uses", Name: "m0:gremote"}}}}})
+	}
 	target := leaf("t")
 	target.Units = "seconds"
 	target.Default = sp("dv")
@@ -447,7 +458,7 @@ func buildIllegal(kind string, sub int, legal bool) []*sg.Mod {
 			m.Groupings = []*sg.Grouping{{Name: "gt", Kids: []*sg.Node{{Kind: "leaf", Name: "gl", Type: &sg.TypeSpec{Name: ref("t1")}, Status: "obsolete"}}}}
 			top.Kids = append(top.Kids, &sg.Node{Kind: "uses", Name: "gt"})
 		}
-		top.Kids = append(top.Kids, l)
+		place(l)
 	case "current-iffeature-deprecated-feature":
 		m.Features = []*sg.Feature{{Name: "f", Status: "deprecated"}}
 		l := leaf("x")
@@ -460,7 +471,7 @@ func buildIllegal(kind string, sub int, legal bool) []*sg.Mod {
 			e.Status, e.IfFeatures = "deprecated", []string{ref("f")}
 			top.Kids = append(top.Kids, e)
 		}
-		top.Kids = append(top.Kids, l)
+		place(l)
 	case "current-base-deprecated-identity":
 		m.Identities = []*sg.Identity{{Name: "base", Status: "deprecated"}, {Name: "derived", Base: ref("base")}}
 		if legal {
